@@ -327,7 +327,7 @@ Definition call_ok (c : call) : bool :=
   args_ok (s_ins (c_sig c)) (c_ins c) && args_ok (s_outs (c_sig c)) (c_outs c).
 
 (* ------------------------------------------------------------------------------------------------ rendering (for the correspondence run) *)
-Definition nl : string := String (ascii_of_nat 10) EmptyString.
+Definition nl : string := "~"%string.
 Fixpoint join (sep : string) (l : list string) : string :=
   match l with [] => EmptyString | [x] => x | x :: t => sapp x (sapp sep (join sep t)) end.
 Definition z_str (z : Z) : string :=
